@@ -492,6 +492,13 @@ class Intervals:
             local = self.not_defs[("copy", local)]
             seen += 1
         if local not in self.cmp_defs:
+            # `a.ends_with(b)` / `starts_with` / `strip_*` … holding: b is not longer than a
+            d = self.du.single_def(local)
+            if truth and d is not None and d[0] == "call" and names.call_is(d[4], "str::ends_with", "str::starts_with", "str::contains", "slice::ends_with", "slice::starts_with") and len(d[4]["args"]) == 2:
+                ra, rb = self.root(d[4]["args"][0]), self.root(d[4]["args"][1])
+                if ra and rb and flow.op_place(d[4]["args"][1]) is not None and "char" not in (self.body.local_ty(flow.op_place(d[4]["args"][1])[0]) or "char"):
+                    st = st.copy()
+                    self.rel_add(st, "le", ("l",) + rb, ("l",) + ra)
             return st
         op, a, b = self.cmp_defs[local]
         if not truth:
@@ -509,6 +516,14 @@ class Intervals:
         elif op == "Eq":
             m = ia.meet(ib)
             na = nb = m
+        elif op == "Ne":
+            # x != c with c the bound of x's range: the range shrinks by one
+            if ib.exact() is not None and ia.lo == ib.exact() and ia.hi > ia.lo:
+                na = Iv(ia.lo + 1, ia.hi)
+            elif ib.exact() is not None and ia.hi == ib.exact() and ia.hi > ia.lo:
+                na = Iv(ia.lo, ia.hi - 1)
+            elif ia.exact() is not None and ib.lo == ia.exact() and ib.hi > ib.lo:
+                nb = Iv(ib.lo + 1, ib.hi)
         st = st.copy()
         sa, sb = self.sym(a), self.sym(b)
         if op == "Lt":
